@@ -179,10 +179,10 @@ def main(ctx):
         build = build.replace("Thick <- MCThick", "Thick <- SmallThick")
     ctx.model_check("MC_Lens", write_cfg(ctx, "build.cfg", build), workers=16)
     # a second build model with aspheres, conics, tilts and decentres on a smaller grid
-    # (per level: 11 geometries x thick x media x stop x tilt; 88^3 = 6.8e5 states quick)
+    # (per level: 11 geometries x thick x media x stop: 44 quick / 88 thorough; 1.8e5 / 1.4e6 states)
     build2 = cfg_text(spec="SpecBuild", base="Empty", depth=10, maxsurf=4, radii="SmallRadii",
                       thick="OneThick" if quick else "SmallThick", media="Media2", conics="MCConics",
-                      tilts="ZeroOnly" if quick else "MCTilts", decs="ZeroOnly", coefs="MCCoefs",
+                      tilts="ZeroOnly", decs="ZeroOnly", coefs="MCCoefs",
                       kinds="BothKinds", maxwl=1, maxpk=0, props=False,
                       extra="PROPERTY VertexRunningSum\n")
     ctx.model_check("MC_Lens", write_cfg(ctx, "build2.cfg", build2), workers=16)
